@@ -158,9 +158,9 @@ def _inst_m(tier):
 
 
 def _inst_t(tier):
-    out = [{"score": "chord", "shape": "all"}, {"score": "grace", "shape": "mixed"}]
+    out = [{"score": "chord", "shape": "all"}, {"score": "grace", "shape": "mixed"}, {"score": "grace", "shape": "all"}]
     if tier != "quick":
-        out += [{"score": "chord", "shape": "rev"}, {"score": "chord", "shape": "mixed"}, {"score": "grace", "shape": "all"}, {"score": "chord", "shape": "missing"}]
+        out += [{"score": "chord", "shape": "rev"}, {"score": "chord", "shape": "mixed"}, {"score": "chord", "shape": "missing"}]
     return out
 
 
